@@ -12,10 +12,16 @@
                          fill_up_auth_query_config(); validate()?         (error => Err)  = [Invalid why]
                          config.path = path; CONFIG.store(Arc::new(config))  -- BEFORE any pool is built
                                                                                           = [Valid c _]
-    config.rs:1651-1676  reload_config: old_config = get_config(); parse(&old_config.path) (Err => return
+    config.rs:1651-1684  reload_config: old_config = get_config(); parse(&old_config.path) (Err => return
                          Err(BadConfig), nothing stored); new_config = get_config();
-                         [if old_config != new_config] { ConnectionPool::from_config(..).await?; Ok(true) }
+                         [if old_config != new_config] { if let Err(err) = ConnectionPool::from_config(..).await
+                           { CONFIG.store(Arc::new(old_config)); return Err(err) }  Ok(true) }
                          else { Ok(false) }                                               = [reload]
+                         (until commit 0510794 the Err branch was [from_config(..).await?]: CONFIG stayed new,
+                          POOLS old, every later reload of the same file said "unchanged" — finding F12; that
+                          version is kept as the mutant [reload_store_first] in Mutants.v.  Between parse()
+                          and the restore CONFIG holds the new file for the duration of the failed build:
+                          a reload is one atomic step in this model.)
                          Config: #[derive(PartialEq)] over path, general, plugins and the HashMap of
                          pools (order-independent)                                        = [cfg_eqb]
     config.rs:638-642    Pool::hash_value: DefaultHasher over the [pools.<name>] section only (its
@@ -177,8 +183,9 @@ Definition reload (s : store) (fo : file_outcome) (next : pool_id) : store * res
         let a := from_config (pools s) c bo next in
         match a_st a with
         | FcOk => ({| config := c; pools := a_np a |}, ROk true, a_next a, a_new a)   (* POOLS.store, pool.rs:618 *)
-        | FcErr => (s1, RErr, next, [])
-        | FcPanic => (s1, RPanic, next, [])
+        | FcErr => (s, RErr, next, [])          (* config.rs:1669-1680 (repair 0510794): [if let Err(err) = from_config ..
+                                                   { CONFIG.store(Arc::new(old_config)); return Err(err) }] *)
+        | FcPanic => (s1, RPanic, next, [])     (* a panic unwinds through reload_config: nothing restores CONFIG *)
         end
   end.
 
@@ -366,14 +373,20 @@ Definition in_effect (ob : objs_t) (c : cfg) (p : pools_t) : Prop :=
 
 Definition hash_inj : Prop := forall a b, hashf a = hashf b -> a = b.
 
-(** class of F12: some build of the new configuration does not succeed *)
+(** every build of the new configuration succeeds *)
 Definition all_built (c : cfg) (bo : db -> user -> build_outcome) : bool :=
   forallb (fun x => match bo (fst (fst x)) (snd x) with Built => true | _ => false end) (flat c).
 
-Definition known_f12 (fo : file_outcome) : bool :=
-  match fo with Valid c bo => negb (all_built c bo) | _ => false end.
+(** no build of the new configuration panics (failing with an error is allowed) *)
+Definition no_panic (c : cfg) (bo : db -> user -> build_outcome) : bool :=
+  forallb (fun x => match bo (fst (fst x)) (snd x) with BuildPanics => false | _ => true end) (flat c).
 
-Definition op_known_f12 (o : op) : bool := match o with OReload fo => known_f12 fo | _ => false end.
+(** the remaining class: a PANIC inside from_config (no input known: Config::validate excludes the
+    bb8 assertions and unwraps, C15) still leaves CONFIG new and POOLS old *)
+Definition known_panic (fo : file_outcome) : bool :=
+  match fo with Valid c bo => negb (no_panic c bo) | _ => false end.
+
+Definition op_known_panic (o : op) : bool := match o with OReload fo => known_panic fo | _ => false end.
 
 Definition fo_wf (fo : file_outcome) : Prop := match fo with Valid c _ => wf_cfg c | _ => True end.
 Definition op_wf (o : op) : Prop := match o with OReload fo => fo_wf fo | _ => True end.
